@@ -157,6 +157,13 @@ def expand_grammar(G):
         if k == 'ref' and e[1] in penv:
             return penv[e[1]]
         if k == 'call':
+            if e[1] in penv:
+                # a parameter bound to a template, called with arguments
+                tgt = penv[e[1]]
+                if tgt[0] == 'ref' and tgt[1] in templates:
+                    e = ('call', tgt[1], e[2])
+                else:
+                    raise NoExpansion('call through a parameter that is not a template')
             return expand_call(e, penv, depth)
         return gen.map_children(e, lambda c: subst(c, penv, depth))
 
@@ -458,6 +465,26 @@ def curated_special():
     out.append(('arg-let-read', [
         ('rule', 'start', None, ('seq', [('call', 'W', [('let', 'v', T, ('py', "('seen', v)"))]), ('call', 'W', [('let', 'v', T, ('where', T, ('py', 'lambda w: w == v')))])])),
         ('rule', 'W', ['p'], ('seq', [('ref', 'p'), ('opt', ('str', '!'))]))]))
+    # templates handed to templates: a parameter called with arguments
+    ANGLE = ('rule', 'Angle', ['x'], ('right', ('str', '<'), ('left', ('ref', 'x'), ('str', '>'))))
+    CURLY = ('rule', 'Curly', ['x'], ('seq', [('str', '{'), ('ref', 'x'), ('str', '}')]))
+    out.append(('higher-order', [
+        ('rule', 'start', None, ('seq', [('call', 'Both', [('ref', 'Angle'), ('str', 'a')]), ('call', 'Both', [('ref', 'Curly'), ('ref', 'Tok')]),
+                                         ('opt', ('call', 'Twice', [('ref', 'Angle'), ('ref', 'Tok')]))])),
+        ('rule', 'Both', ['w', 'i'], ('call', 'w', [('ref', 'i')])),
+        ('rule', 'Twice', ['w', 'i'], ('call', 'w', [('call', 'w', [('ref', 'i')])])), ANGLE, CURLY]))
+    out.append(('higher-order-kw', [
+        ('rule', 'start', None, ('seq', [('call', 'Both', [('kw', 'i', ('ref', 'Tok')), ('kw', 'w', ('ref', 'Angle'))]),
+                                         ('star', ('call', 'Both', [('ref', 'Curly'), ('alt', [('str', 'ab'), ('ref', 'Tok')])]))])),
+        ('rule', 'Both', ['w', 'i'], ('call', 'w', [('kw', 'x', ('ref', 'i'))])), ANGLE, CURLY]))
+    out.append(('higher-order-value', [
+        ('rule', 'start', None, ('let', 'n', D, ('seq', [('call', 'Ho', [('ref', 'Rep'), ('ref', 'n')]), ('call', 'Ho', [('ref', 'Rep'), ('py', 'n + 1')])]))),
+        ('rule', 'Ho', ['f', 'v'], ('seq', [('call', 'f', [('ref', 'v')]), ('opt', ('str', '!'))])),
+        ('rule', 'Rep', ['k'], ('rep', ('str', 'a'), ('name', 'k'), ('name', 'k')))]))
+    out.append(('higher-order-class', [
+        ('rule', 'start', None, ('seq', [('call', 'Mk', [('ref', 'Box'), ('ref', 'Tok')]), ('call', 'Mk', [('ref', 'Box'), ('str', '!')])])),
+        ('rule', 'Mk', ['c', 'p'], ('call', 'c', [('ref', 'p')])),
+        ('class', 'Box', ['q'], [('field', 'v', ('ref', 'q')), ('field', 'more', ('opt', ('ref', 'q')))])]))
     # caller and callee spell a binding alike (parameter / let / field of the same name): each keeps its
     # own value, also after the call returns
     TOK = ('ref', 'Tok')
